@@ -1166,6 +1166,22 @@ def check_push_initialises(chk, prog, unit, rule="P6"):
                             plain.add(l["n"])
             if x.get("k") == "call" and X.callee_name(x) in ("memset", "__builtin_memset") and any(glob_ref(y, tab["n"]) is not None for y in walk(x["ch"][1])):
                 plain.update(fld["n"] for fld in rec["fields"])
+            # the whole entry stored at once from a local of the record type that was filled field by field (entry.f = ..;
+            # table[idx] = entry;): the fields that local was given
+            if x.get("k") == "assign" and x.get("op") == "=":
+                l, r = X.strip(x["ch"][0]), X.strip(x["ch"][1])
+                tgt = l
+                while tgt is not None and tgt.get("k") in ("index", "paren") or (tgt is not None and tgt.get("k") == "un" and tgt.get("op") == "*"):
+                    tgt = X.strip(tgt["ch"][0])
+                if l is not None and l.get("k") in ("index", "un") and tgt is not None and (glob_ref(tgt, tab["n"]) is not None or (tgt.get("k") == "ref" and tgt.get("d") in into)) \
+                        and r is not None and r.get("k") == "ref" and r.get("rk") == "local" and not r.get("tp"):
+                    for y in walk(f.body):
+                        if y.get("k") == "assign" and y.get("op") == "=":
+                            ly = X.strip(y["ch"][0])
+                            if ly is not None and ly.get("k") == "member" and not ly.get("arrow") and (X.strip(ly["ch"][0]) or {}).get("d") == r["d"]:
+                                plain.add(ly["n"])
+                        if y.get("k") == "decl" and any(dc["d"] == r["d"] and dc.get("init") is not None for dc in y.get("decls", ())):
+                            plain.update(fld["n"] for fld in rec["fields"])
         n += 1
         for fld in rec["fields"]:
             chk.ob(rule, f.name, "entry-field-initialised:" + fld["n"], fld["n"] in plain, loc=f.loc(node),
@@ -1441,6 +1457,13 @@ def check_discarded_lines(chk, unit, rule="P7"):
                 if y.get("k") == "ref" and y.get("flagdef") is not None:
                     cond_calls |= {X.callee_name(c) for c in X.calls_in(y["flagdef"])}
             conds_ = [node["cond"]] + [y["flagdef"] for y in walk(node["cond"]) if y.get("k") == "ref" and y.get("flagdef") is not None]
+            # a verdict computed into a local first (too_long = !strchr(..) && ..; if (too_long) ..): its single definition
+            for y in walk(node["cond"]):
+                if y.get("k") == "ref" and y.get("rk") == "local" and y.get("flagdef") is None and not y.get("tp"):
+                    ds_ = _local_defs(f, y["d"])
+                    if len(ds_) == 1:
+                        conds_.append(ds_[0])
+                        cond_calls |= {X.callee_name(c) for c in X.calls_in(ds_[0])}
             newline_tested = any(
                 (X.callee_name(c_) in ("strchr", "strrchr", "memchr", "__builtin_strchr", "__builtin_strrchr") and len(c_["ch"]) >= 3 and X.const_val(c_["ch"][2]) == 10)
                 for e_ in conds_ for c_ in X.calls_in(e_)) or any(
